@@ -354,7 +354,13 @@ func fingerprint(p *pipeline.Pipeline) (fp Fingerprint) {
 		var db strings.Builder
 		for _, n := range nodes {
 			db.WriteString(fmt.Sprintf("%s id=%d desc=%s parents=%s children=%s :: ", n.Name(), n.ID(), n.Desc(), names(n.Parents()), names(n.Children())))
-			db.WriteString(nodeProps(n, func(o pipeline.Node) (string, bool) { o = resolve(o); return o.Name(), isNode[o] }))
+			db.WriteString(nodeProps(n, func(o pipeline.Node) (string, bool) {
+				o = resolve(o)
+				if !isNode[o] {
+					return "", false // e.g. an alert handler (its back pointer is nil after Unmarshal)
+				}
+				return o.Name(), true
+			}))
 			db.WriteString("\n")
 		}
 		return db.String()
